@@ -33,6 +33,7 @@ type Gen struct {
 	nextH   int64
 	clock   int64
 	pending []Call
+	sizeOf  map[string]int
 	removed []string        // names that were removed (re-creating them exercises tombstones)
 	used    map[string]bool // every name ever handed out (clean mode never renames onto one)
 	sized   map[string]bool // files that (probably) have content
@@ -346,4 +347,99 @@ func (g *Gen) SyncShadow(o *Gen) {
 	g.dirs = append([]string{}, o.dirs...)
 	g.files = append([]string{}, o.files...)
 	g.nextH = o.nextH + 100
+}
+
+// NextFile produces the handle-centred histories of the C14 stream: a few files with known
+// content, then handles opened with every flag combination and driven with reads, positioned
+// reads, seeks (negative, zero, inside, at and beyond the end), writes, positioned writes,
+// truncations and stats, then closed and read back.
+func (g *Gen) NextFile() Call {
+	if len(g.pending) > 0 {
+		c := g.pending[0]
+		g.pending = g.pending[1:]
+		return c
+	}
+	sizes := []int{0, 1, 7, 300, 511, 512, 513, 1400}
+	if len(g.files) < 3 {
+		p := fmt.Sprintf("/f%d", len(g.files))
+		g.files = append(g.files, p)
+		g.nextH++
+		id := fmt.Sprint(g.nextH)
+		n := sizes[g.R.Intn(len(sizes))]
+		g.fsize(p, n)
+		g.pending = []Call{}
+		if n > 0 {
+			g.pending = append(g.pending, Call{"hwrite", []string{id, fmt.Sprint(n), fmt.Sprint(g.R.Intn(1 << 20))}})
+		}
+		g.pending = append(g.pending, Call{"hclose", []string{id}})
+		return Call{"create", []string{id, enc(p)}}
+	}
+	p := g.files[g.R.Intn(len(g.files))]
+	size := g.sizeOf[p]
+	g.nextH++
+	id := fmt.Sprint(g.nextH)
+	acc := []int{os.O_RDONLY, os.O_WRONLY, os.O_RDWR, os.O_RDWR, os.O_RDWR}[g.R.Intn(5)]
+	flag := acc
+	if g.R.Intn(6) == 0 {
+		flag |= os.O_APPEND
+	}
+	if g.R.Intn(6) == 0 {
+		flag |= os.O_TRUNC
+	}
+	if g.R.Intn(3) == 0 {
+		flag |= os.O_CREATE
+	}
+	off := func() int64 {
+		switch g.R.Intn(7) {
+		case 0:
+			return -int64(1 + g.R.Intn(5))
+		case 1:
+			return 0
+		case 2:
+			return int64(size)
+		case 3:
+			return int64(size + 1 + g.R.Intn(600))
+		default:
+			if size > 0 {
+				return int64(g.R.Intn(size))
+			}
+			return int64(g.R.Intn(4))
+		}
+	}
+	cnt := func() int {
+		return []int{0, 1, 5, 100, 512, 600, size, size + 10}[g.R.Intn(8)]
+	}
+	ops := []Call{}
+	nops := 1 + g.R.Intn(7)
+	for k := 0; k < nops; k++ {
+		switch g.R.Intn(9) {
+		case 0, 1:
+			ops = append(ops, Call{"hread", []string{id, fmt.Sprint(cnt())}})
+		case 2:
+			ops = append(ops, Call{"hreadat", []string{id, fmt.Sprint(cnt()), fmt.Sprint(off())}})
+		case 3:
+			ops = append(ops, Call{"hseek", []string{id, fmt.Sprint(off()), fmt.Sprint(g.R.Intn(3))}})
+		case 4, 5:
+			ops = append(ops, Call{"hwrite", []string{id, fmt.Sprint(cnt() % 700), fmt.Sprint(g.R.Intn(1 << 20))}})
+		case 6:
+			ops = append(ops, Call{"hwriteat", []string{id, fmt.Sprint(cnt() % 700), fmt.Sprint(g.R.Intn(1 << 20)), fmt.Sprint(off())}})
+		case 7:
+			ops = append(ops, Call{"htruncate", []string{id, fmt.Sprint(off())}})
+		case 8:
+			ops = append(ops, Call{"hstat", []string{id}})
+		}
+	}
+	if g.R.Intn(8) == 0 {
+		ops = append(ops, Call{"hsync", []string{id}})
+	}
+	ops = append(ops, Call{"hclose", []string{id}}, Call{"cat", []string{enc(p)}}, Call{"stat", []string{enc(p)}})
+	g.pending = ops
+	return Call{"openfile", []string{id, enc(p), fmt.Sprint(flag), "420"}}
+}
+
+func (g *Gen) fsize(p string, n int) {
+	if g.sizeOf == nil {
+		g.sizeOf = map[string]int{}
+	}
+	g.sizeOf[p] = n
 }
